@@ -125,6 +125,9 @@ public:
   // Classify the next step without executing it.
   Domain classifyNext(bool rtlTargets, bool needWritten) const {
     if ((pc >> 2) >= W) return D_FETCH_OOB;
+    // Executing a word that was neither loaded nor written (running off the end of the image) is a
+    // use of an undefined value like any other.
+    if (needWritten && trackWritten && !written[pc >> 2]) return D_READ_UNWRITTEN;
     uint8_t inst = byteAt(pc);
     uint32_t npc = pc + 1;
     uint32_t o = oreg | (inst & 15);
